@@ -6,15 +6,51 @@ pub use methods::dispatch as sort;
 mod methods {
     use crate::CelValue;
 
-    fn sort(mut this: Vec<CelValue>) -> Vec<CelValue> {
-        this.sort_by(|a, b| {
-            a.clone()
-                .ord(b.clone())
-                .unwrap_or(Some(std::cmp::Ordering::Less))
-                .unwrap_or(std::cmp::Ordering::Less)
-        });
-        this
+    fn sort(this: Vec<CelValue>) -> Vec<CelValue> {
+        internal::merge_sort(this)
     }
 
-    mod internal {}
+    mod internal {
+        use std::cmp::Ordering;
+
+        use crate::CelValue;
+
+        // a failing or undefined comparison reads as "less"
+        fn is_less(a: &CelValue, b: &CelValue) -> bool {
+            a.clone()
+                .ord(b.clone())
+                .unwrap_or(Some(Ordering::Less))
+                .unwrap_or(Ordering::Less)
+                == Ordering::Less
+        }
+
+        // A stable merge sort. `slice::sort_by` may panic when the comparator is not a
+        // total order, and `ord` is not one on lists of mixed types or with NaN.
+        pub fn merge_sort(mut list: Vec<CelValue>) -> Vec<CelValue> {
+            if list.len() < 2 {
+                return list;
+            }
+
+            let right = merge_sort(list.split_off(list.len() / 2));
+            let left = merge_sort(list);
+
+            let mut merged = Vec::with_capacity(left.len() + right.len());
+            let mut i = 0;
+            let mut j = 0;
+            while i < left.len() && j < right.len() {
+                // equal elements keep their order: the right one goes first only when it is less
+                if is_less(&right[j], &left[i]) {
+                    merged.push(right[j].clone());
+                    j += 1;
+                } else {
+                    merged.push(left[i].clone());
+                    i += 1;
+                }
+            }
+            merged.extend_from_slice(&left[i..]);
+            merged.extend_from_slice(&right[j..]);
+
+            merged
+        }
+    }
 }
